@@ -54,8 +54,8 @@ def tree_ok_excl(tr):
               and (rel + (c["name"],), False) not in tbl]
         if cm and not any(n.endswith(".cmake") for n in cm):
             return False
-        if top and not any(n.endswith(".cmake") for n in cm):
-            return False
+        if top and not case.get("recursive") and not any(n.endswith(".cmake") for n in cm):
+            return False       # (with -r the input directory is indexed in any case: repair of F23)
         for c in children:
             if c["kind"] == "d" and (rel + (c["name"],), True) not in tbl:
                 if not rec(c["children"], rel + (c["name"],), False):
@@ -115,8 +115,8 @@ def gen_case(rng, patterns_p=0.0, single_p=0.1, out_modes=("abs", "abs", "rel", 
         c["tree"] = treeh.gen_tree(rng, max_depth=rng.choice([1, 2, 3, 3]), ext_variants=ext_variants)
         special = rng.random() < 0.12
         if special:
-            # an input directory without a CMake file of its own (known finding F23 territory: outside
-            # tree_ok, so only the correspondence with the model applies there), with chains of
+            # an input directory without a CMake file of its own (finding F23, repaired: with -r it is
+            # indexed in any case), with chains of
             # directories that have no CMake file but CMake files further down
             c["tree"] = [n for n in c["tree"] if not (n["kind"] == "f" and is_cmake(n["name"]))]
             deep = dict(name="third_party", kind="d", children=[
